@@ -19,8 +19,8 @@ pub static DEF: PropDef = PropDef {
         "cases in which the writer rejects a call are vacuous for C01 (counted as writer_rejected_*; acceptance itself is C11's subject)",
         "unknown size is only requested where reading is unambiguous (not on global masters, not directly before a global/raw element)",
     ],
-    cases_quick: 6000,
-    cases_thorough: 300_000,
+    cases_quick: 250_000,
+    cases_thorough: 3_000_000,
     floors: &[("roundtrips_compared", 2000), ("distinct_nontrivial", 300)],
     exhaustive_note: None,
     run,
